@@ -211,6 +211,13 @@ func genEvents(r *term.Rng, idx int) term.T {
 		// not fit an int must still compare correctly
 		prios = []int64{math.MinInt64, math.MinInt64 + 1, -100, -1, 0, 1, 100, math.MaxInt64 - 1, math.MaxInt64}
 	}
+	// big mode: more listeners on a handler than sort.Sort's insertion-sort bound (12) and than any small
+	// fixed buffer, all with pairwise distinct priorities (so every correct sort gives the same order)
+	bigMode := r.Chance(1, 6)
+	nextDistinct := map[int]int64{}
+	if bigMode {
+		nops = r.Range(30, 70)
+	}
 	totalReacts := 0
 	if r.Chance(9, 10) {
 		ops = append(ops, term.C("OInit", term.L(term.I(100), term.I(101))))
@@ -219,10 +226,32 @@ func genEvents(r *term.Rng, idx int) term.T {
 		switch {
 		case r.Chance(1, 2):
 			h := r.Intn(nh)
-			if subs[h] >= 12 { // sort.Sort is only insertion sort (stable) up to 12 elements
+			if bigMode && r.Chance(2, 3) {
+				h = 0
+				if nh >= 4 {
+					h = 3 - r.Intn(3) // one of the priority / mutable / cancelable handlers
+				}
+			}
+			if subs[h] >= 12 && !bigMode { // sort.Sort is only insertion sort (stable) up to 12 elements
+				continue
+			}
+			if subs[h] >= 40 {
 				continue
 			}
 			subs[h]++
+			if bigMode {
+				// distinct priorities per handler, arriving out of order: 7*k mod 41 walks 0..40 without repeats
+				k := nextDistinct[h]
+				nextDistinct[h]++
+				pr := (7*k)%41 - 20
+				rs := []term.T{}
+				if r.Chance(1, 3) && totalReacts < 60 {
+					rs = append(rs, genReaction(r, nh, 0))
+					totalReacts++
+				}
+				ops = append(ops, term.C("OSub", term.Nat(h), term.I(pr), term.L(rs...)))
+				continue
+			}
 			rs := []term.T{}
 			for k := r.Intn(4); k > 0 && totalReacts < 60; k-- {
 				rs = append(rs, genReaction(r, nh, 0))
